@@ -73,6 +73,9 @@ P_Partial.vos P_Partial.vok P_Partial.required_vos: P_Partial.v Ast.vos Generate
 P_Program.vo P_Program.glob P_Program.v.beautified P_Program.required_vo: P_Program.v Ast.vo Generated.vo Config.vo Model.vo
 P_Program.vio: P_Program.v Ast.vio Generated.vio Config.vio Model.vio
 P_Program.vos P_Program.vok P_Program.required_vos: P_Program.v Ast.vos Generated.vos Config.vos Model.vos
+P_Sem.vo P_Sem.glob P_Sem.v.beautified P_Sem.required_vo: P_Sem.v Sem.vo
+P_Sem.vio: P_Sem.v Sem.vio
+P_Sem.vos P_Sem.vok P_Sem.required_vos: P_Sem.v Sem.vos
 P_SrcMap.vo P_SrcMap.glob P_SrcMap.v.beautified P_SrcMap.required_vo: P_SrcMap.v SrcMap.vo
 P_SrcMap.vio: P_SrcMap.v SrcMap.vio
 P_SrcMap.vos P_SrcMap.vok P_SrcMap.required_vos: P_SrcMap.v SrcMap.vos
@@ -82,6 +85,9 @@ P_Telemetry.vos P_Telemetry.vok P_Telemetry.required_vos: P_Telemetry.v Ast.vos 
 Partial.vo Partial.glob Partial.v.beautified Partial.required_vo: Partial.v Ast.vo Generated.vo Config.vo Model.vo
 Partial.vio: Partial.v Ast.vio Generated.vio Config.vio Model.vio
 Partial.vos Partial.vok Partial.required_vos: Partial.v Ast.vos Generated.vos Config.vos Model.vos
+Sem.vo Sem.glob Sem.v.beautified Sem.required_vo: Sem.v 
+Sem.vio: Sem.v 
+Sem.vos Sem.vok Sem.required_vos: Sem.v 
 Shapes.vo Shapes.glob Shapes.v.beautified Shapes.required_vo: Shapes.v Ast.vo Generated.vo HookSites.vo Erase.vo
 Shapes.vio: Shapes.v Ast.vio Generated.vio HookSites.vio Erase.vio
 Shapes.vos Shapes.vok Shapes.required_vos: Shapes.v Ast.vos Generated.vos HookSites.vos Erase.vos
@@ -94,9 +100,9 @@ SrcMap.vos SrcMap.vok SrcMap.required_vos: SrcMap.v
 ToConfig.vo ToConfig.glob ToConfig.v.beautified ToConfig.required_vo: ToConfig.v Ast.vo Generated.vo Config.vo
 ToConfig.vio: ToConfig.v Ast.vio Generated.vio Config.vio
 ToConfig.vos ToConfig.vok ToConfig.required_vos: ToConfig.v Ast.vos Generated.vos Config.vos
-Properties/C01.vo Properties/C01.glob Properties/C01.v.beautified Properties/C01.required_vo: Properties/C01.v Ast.vo Generated.vo Config.vo Model.vo HookSites.vo Erase.vo Order.vo P_Local.vo P_Hooks.vo
-Properties/C01.vio: Properties/C01.v Ast.vio Generated.vio Config.vio Model.vio HookSites.vio Erase.vio Order.vio P_Local.vio P_Hooks.vio
-Properties/C01.vos Properties/C01.vok Properties/C01.required_vos: Properties/C01.v Ast.vos Generated.vos Config.vos Model.vos HookSites.vos Erase.vos Order.vos P_Local.vos P_Hooks.vos
+Properties/C01.vo Properties/C01.glob Properties/C01.v.beautified Properties/C01.required_vo: Properties/C01.v Ast.vo Generated.vo Config.vo Model.vo HookSites.vo Erase.vo Order.vo P_Local.vo P_Hooks.vo Sem.vo P_Sem.vo
+Properties/C01.vio: Properties/C01.v Ast.vio Generated.vio Config.vio Model.vio HookSites.vio Erase.vio Order.vio P_Local.vio P_Hooks.vio Sem.vio P_Sem.vio
+Properties/C01.vos Properties/C01.vok Properties/C01.required_vos: Properties/C01.v Ast.vos Generated.vos Config.vos Model.vos HookSites.vos Erase.vos Order.vos P_Local.vos P_Hooks.vos Sem.vos P_Sem.vos
 Properties/C02.vo Properties/C02.glob Properties/C02.v.beautified Properties/C02.required_vo: Properties/C02.v Ast.vo Generated.vo Config.vo Model.vo HookSites.vo Erase.vo P_Hooks.vo P_Erase.vo
 Properties/C02.vio: Properties/C02.v Ast.vio Generated.vio Config.vio Model.vio HookSites.vio Erase.vio P_Hooks.vio P_Erase.vio
 Properties/C02.vos Properties/C02.vok Properties/C02.required_vos: Properties/C02.v Ast.vos Generated.vos Config.vos Model.vos HookSites.vos Erase.vos P_Hooks.vos P_Erase.vos
